@@ -92,6 +92,15 @@ fn gen_c15(ctx: &mut Ctx) {
         ctx.monitor(res == want, "C15-write-all", &line, &res);
     }
     let mut rng = Rng::new(ctx.seed, 15);
+    // every data length 0..=255 written with Frame::write and read back with Frame::read
+    for len in 0..=255usize {
+        let d = rng.bytes(len);
+        let msgs = vec![format!("SD.{}.{}", len, hex_of_bytes(&d)), "DC.1".to_string()];
+        let line = format!("WIRES {}", msgs.join(" "));
+        let res = ctx.case(line.clone(), true, "every-data-length");
+        let want = format!("{} | left=0", msgs.iter().map(|m| format!("OK {}", m)).collect::<Vec<_>>().join(" ; "));
+        ctx.monitor(res == want, "C15-write-all", &line[..line.len().min(300)], &res[..res.len().min(200)]);
+    }
     let thorough = ctx.tier_thorough;
     let f1 = enc(2, 1, &[3, 31], true);
     let f2 = enc(0, 0, &[], true);
@@ -536,6 +545,22 @@ fn gen_c16(ctx: &mut Ctx) {
         let rs: Vec<String> = (0..rng.below(12)).map(|_| if rng.chance(1, 4) { "I".to_string() } else { format!("D{}", rng.below(6)) }).collect();
         let ws: Vec<String> = (0..rng.below(8)).map(|_| if rng.chance(1, 4) { "I".to_string() } else { format!("A{}", rng.below(6)) }).collect();
         sb_case(ctx, m, tape, &rs, &ws, "fragmented");
+    }
+    // a data chunk of every length 0..=255 sent through the bus: exactly its frame is written, nothing is read
+    for len in 0..=255usize {
+        let d = rng.bytes(len);
+        sb_case(ctx, &format!("SD.{}.{}", 16 * len, hex_of_bytes(&d)), &enc_msg("RS.3.PLD"), &[], &[], "every-data-length");
+    }
+    // an in-progress report that trickles in (each read takes 10 / 30 ms: the line takes longer than the 100 ms pause that
+    // follows it), and a final report likewise
+    for st in ["PLP", "PSP", "PLD", "PSH"] {
+        for ms in [10u32, 30] {
+            let tape = enc_msg(&format!("RS.3.{}", st));
+            let line = format!("SBD QS.3 {} {}", hex_of_bytes(&tape), ms);
+            let res = ctx.case(line.clone(), true, "report-trickles-in");
+            let want = format!("OK RS.3.{} | {} | -", st, hex_of_bytes(&enc_msg("QS.3")));
+            ctx.monitor(res == want, "C16-serial-exchange", &line, &format!("wanted [{}] got [{}]", want, res));
+        }
     }
     // the reply's text followed by every kind of line ending and stray byte, then another frame
     for reply in ["RS.3.PLD", "AO.3.RPX"] {
